@@ -192,7 +192,8 @@ def check(case: Dict[str, Any]) -> CaseInfo:
 
 
 def _rank_sel(draw, ranks: List[int]) -> Any:
-    mode = draw(st.sampled_from(["subset", "none", "int", "single", "all"]))
+    # None = "the first rank of the traces": only drawn when the first loaded rank is also the smallest (both readings agree)
+    mode = draw(st.sampled_from(["subset", "none", "int", "single", "all"] if ranks[0] == min(ranks) else ["subset", "int", "single", "all"]))
     if mode == "none":
         return None
     if mode == "int":
